@@ -780,7 +780,7 @@ func (in *Interp) indexAddr(base Value, idx *Term, it types.Type) Value {
 	if idx.IsConst() {
 		i := idx.Signed()
 		if i < 0 || i >= int64(n) {
-			in.end("panic", fmt.Sprintf("index out of range [%d] with length %d", i, n))
+			in.end("panic", fmt.Sprintf("index out of range [%d] with length %d in %s", i, n, in.curFn))
 		}
 		return arr.E[off+int(i)]
 	}
